@@ -70,9 +70,11 @@ def generate(seed, tier, prop):
             "randint_mode": r.choice(["honest", "honest", "honest", "allequal"]),
             # the reference-basis filter applied to a dataset of any size (the negative phase draws from its output)
             "refbasis_direct": ({"N": r.choice([1, 7, 50, 4097, 32769, 40000, 70001]), "dseed": P.s64(r), "nv": r.randint(1, 3)} if (prop == "C07" and r.random() < 0.04) else None),
+            # a callback of this run trains ANOTHER model to completion in the middle of the run (two fits interleaved)
+            "nested_fit": ({"at": r.randrange(1, max(2, total - 1)), "pseed": P.s64(r), "dseed": P.s64(r), "epochs": r.randint(1, 2)} if r.random() < 0.08 else None),
             "second_fit": r.random() < 0.3,
             # what the caller does between the two training runs
-            "between": r.choice(["none", "none", "reinit", "randomise", "refill_data"]),
+            "between": r.choice(["none", "none", "reinit", "randomise", "refill_data", "swap_unitaries"]),
             "between_seed": P.s64(r),
             "lr2": r.choice([1e-3, 0.05, 0.5]),  # the second training run uses another learning rate
         },
@@ -89,7 +91,7 @@ def execute(plan, prop):
     from qsim.seams.public import BatchCapture, OptRecorder, recording_optimizer, recording_scheduler
     from qsim.seams.rng import RngSeam
     from qsim.train import run_fit
-    from qsim.world import build_data, build_state, params_snapshot, randomise
+    from qsim.world import build_data, build_state, new_state, params_snapshot, randomise
 
     run = Run(plan)
     cfg = plan["config"]
@@ -125,6 +127,13 @@ def execute(plan, prop):
                 ok = ok and np.array_equal(bases, bases_copy) and bases.dtype == bases_copy.dtype
             return ok
 
+        def fresh_twin(st):
+            tw = new_state(scfg["type"], st.num_visible, st.num_hidden, getattr(st, "num_aux", None) if scfg["type"] == "density" else None,
+                           unitary_dict={k_: v_.clone() for k_, v_ in st.unitary_dict.items()})
+            for net in st.networks:
+                getattr(tw, net).load_state_dict({k_: v_.clone() for k_, v_ in getattr(st, net).state_dict().items()})
+            return tw
+
         fits = []
         nfits = 2 if cfg.get("second_fit") else 1
         shared_opt_args = {"momentum": 0.0, "dampening": 0.0}  # the caller's dict, passed to every fit of the run
@@ -141,6 +150,11 @@ def execute(plan, prop):
                     state.reinitialize_parameters()
                 elif btw == "randomise":
                     randomise(state, cfg.get("between_seed", 1), scfg.get("scale", 1.0))
+                elif btw == "swap_unitaries" and "unitary_dict" in state.__dict__:
+                    # the user gives new matrices to existing basis names (still unitaries)
+                    ud = state.unitary_dict
+                    ud["X"], ud["Y"] = ud["Y"].clone(), ud["X"].clone()
+                    run.fault("alias", "swap_unitaries")
                 elif btw == "refill_data":
                     # the caller refills ITS OWN buffers in place (same objects) with the next block of measurements
                     g2 = np.random.Generator(np.random.PCG64(cfg.get("between_seed", 1)))
@@ -172,7 +186,17 @@ def execute(plan, prop):
             epoch_of_record = []  # per captured batch: epoch index
             cur_epoch = {"e": None}
 
+            ev_count = {"n": -1}
+
             def handler(kind, args, idx, nn_state, seq):
+                ev_count["n"] += 1
+                nf = cfg.get("nested_fit")
+                if nf and fi == 0 and ev_count["n"] == nf["at"] and kind != "TE":
+                    other = build_state(dict(scfg, pseed=nf["pseed"]))
+                    odata, _, obases = build_data(dict(cfg["data"], dseed=nf["dseed"], form="tensor"), with_bases=with_bases)
+                    kw = {} if obases is None else {"input_bases": obases}
+                    other.fit(odata, epochs=nf["epochs"], pos_batch_size=tc["pos_bs"], neg_batch_size=tc.get("neg_bs"), k=tc["k"], lr=0.05, **kw)
+                    run.fault("interleaved_fit", kind)
                 if kind == "ES":
                     cur_epoch["e"] = args[0]
                 if judge07 and mutated["at"] is None and not data_unchanged():
@@ -209,7 +233,9 @@ def execute(plan, prop):
                         f = Formula(raw_params(state.rbm_am))
                         ref["pos"] = [f.eff_energy_grad_sum(record["samples"].reshape(-1, nv)) / B]
                     else:
-                        g = state.gradient(samples_batch, bases=bases_batch)
+                        # a freshly built object with the same parameters and unitaries: whatever the long-lived
+                        # object remembers from its history must not make its gradients differ from this one's
+                        g = fresh_twin(state).gradient(samples_batch, bases=bases_batch)
                         ref["pos"] = [
                             (x.detach().numpy().astype(np.float64) / B) if isinstance(x, torch.Tensor) else np.zeros(getattr(state, net).num_pars) + float(x)
                             for x, net in zip(g, state.networks)
